@@ -1,7 +1,8 @@
 (** * Store/Db.v — the entity database (spec-layer state of a NIX file)
 
-    Used by C03 (names/lookups/order), C08 (rejected calls leave no trace) and meant to be re-used by
-    C04 (deletion), C02 (close/reopen) and C12 (ids).  Definitions only; proofs are in DbInv*.v.
+    Used by C03 (names/lookups/order), C08 (rejected calls leave no trace), C04 (deletion: [remove_subtree],
+    proofs in DbDelete.v) and C02 (close/reopen: sessions in DbSession.v, proofs in DbReopen.v).
+    Definitions only; proofs are in DbInv*.v.
 
     ** Representation (a deliberate simplification of DESIGN.md appendix C)
 
@@ -14,7 +15,10 @@
     - [h_kind], [h_parent] (None = the file root: "/data" for blocks, "/metadata" for sections),
     - name / type / definition,
     - [links]   every link kind by target oid (metadata, section link, multi-tag positions / extents,
-                feature data; lists: tag references, entity sources, the four group member lists),
+                feature data; lists: tag references, entity sources, the four group member lists;
+                [l_dims]: the dimension descriptors of an array — kind only, plus the frame a data-frame
+                dimension links to; [DimAlias] is the alias range dimension, whose group links to the array
+                ITSELF, see DbSession.v),
     - [payload] per-kind stubs (array element type and extent, property type and value count, frame
                 columns and rows, tag position / extent / units, feature link type).
 
